@@ -2,7 +2,8 @@
  * lexical class (WS = SP HT CR LF, D = '0'..'9', D1 = '1'..'9', H = hex digit, L = 'a'..'z'). The parser mode is a concrete
  * cell (STRICT 0/1) and the holes are the LAST bytes of the document: measured (NOTES.md), a symbolic mode flag or a symbolic
  * byte in front of concrete bytes makes CBMC explore the whole parser again at a symbolic offset (no verdict in 900-1500 s,
- * > 28 GB), while trailing holes cost 10-60 s. Every query still decides its assertion for all values of the holes at once.
+ * > 28 GB), while trailing holes cost 10-60 s. (Dropped for the same reason, > 6-14 GB in the SAT back end or no verdict in 900 s:
+ * dictionaries with members, hexadecimal holes, positive exponents, holes inside strings, truncated containers.) Every query still decides its assertion for all values of the holes at once.
  * Expected results are written from RFC 8259 / the extension list in JSON.hh; float values are computed here with the
  * same elementary double operations (x0.1 / x10 per exponent step, digit*0.1^k per fraction digit), as no correctly rounded
  * result is promised by phosg.   Return codes: kind 0 null 1 bool 2 int 3 float 4 string 5 list 6 dict, -20 parse_error,
@@ -37,20 +38,15 @@ void harness(void) {
   DOC(TPL == 3 ? "[ ]" : "{ }"); in[n++] = ws();
   r = w_json_parse(in, n, STRICT, &val, sout, 16); OBS(r);
   ASSERT(r == (TPL == 3 ? 5 : 6) && val == 0, "an empty list / dictionary with inner whitespace is accepted in this mode");
-#elif TPL == 5 || TPL == 6        /* "[7,8]" WS, "{\"k\":7}" WS : standard, both modes */
-  DOC(TPL == 5 ? "[7,8]" : "{\"k\":7}"); in[n++] = ws();
+#elif TPL == 5                    /* "[7,8]" WS : standard, both modes */
+  DOC("[7,8]"); in[n++] = ws();
   r = w_json_parse(in, n, STRICT, &val, sout, 16); OBS(r);
-  ASSERT(r == (TPL == 5 ? 5 : 6) && val == (TPL == 5 ? 2 : 1), "a standard container document is accepted in this mode with the right size");
-#elif TPL == 7 || TPL == 8        /* trailing comma "[7,]" WS, "{\"k\":7,}" WS : extension */
-  DOC(TPL == 7 ? "[7,]" : "{\"k\":7,}"); in[n++] = ws();
+  ASSERT(r == 5 && val == 2, "a standard list document is accepted in this mode with the right size");
+#elif TPL == 7                    /* trailing comma "[7,]" WS : extension */
+  DOC("[7,]"); in[n++] = ws();
   r = w_json_parse(in, n, STRICT, &val, sout, 16); OBS(r);
   if (STRICT) ASSERT(REJECTED(r), "strict mode rejects a trailing comma");
-  else ASSERT(r == (TPL == 7 ? 5 : 6) && val == 1, "default mode accepts a trailing comma; the container has one member");
-#elif TPL == 9                    /* "0xC" H : hexadecimal integers are an extension */
-  DOC("0x"); uint8_t a = 'C', b = hexd(); in[n++] = a; in[n++] = b; /* two symbolic digits: SAT > 6 GB */
-  r = w_json_parse(in, n, STRICT, &val, sout, 16); OBS(r);
-  if (STRICT) ASSERT(REJECTED(r), "strict mode rejects hexadecimal integers");
-  else ASSERT(r == 2 && val == hv(a) * 16 + hv(b), "default mode reads 0xHH as the integer 16*H+H");
+  else ASSERT(r == 5 && val == 1, "default mode accepts a trailing comma; the container has one member");
 #elif TPL == 10                   /* "-" D1 D D : standard negative integer, both modes */
   DOC("-"); uint8_t a = dig1(), b = dig(), c = dig(); in[n++] = a; in[n++] = b; in[n++] = c;
   r = w_json_parse(in, n, STRICT, &val, sout, 16); OBS(r);
@@ -62,14 +58,6 @@ void harness(void) {
   ASSERT(r == 2 || r == 3, "a standard numeral with exponent is accepted as a number");
   ASSERT(r != 2 || (double)(int64_t)val == ref, "exponent numeral: an int result has the value of the numeral (5e-1 is not 0)");
   ASSERT(r != 3 || dbl(val) == ref, "exponent numeral: a float result has the value 5 * 0.1^D");
-  ASSERT(r == 3, "a numeral with an exponent is a float");
-#elif TPL == 13 || TPL == 14      /* "1e" D, "1e+" D */
-  DOC(TPL == 13 ? "1e" : "1e+"); uint8_t d = dig(); in[n++] = d;
-  r = w_json_parse(in, n, STRICT, &val, sout, 16); OBS(r);
-  double ref = 1.0; for (int i = 0; i < d - '0'; i++) ref *= 10;
-  ASSERT(r == 2 || r == 3, "a standard numeral with exponent is accepted as a number");
-  ASSERT(r != 2 || (double)(int64_t)val == ref, "exponent numeral: an int result has the value of the numeral");
-  ASSERT(r != 3 || dbl(val) == ref, "exponent numeral: a float result has the value 10^D");
   ASSERT(r == 3, "a numeral with an exponent is a float");
 #elif TPL == 15                   /* "2." D D : fraction */
   DOC("2."); uint8_t a = dig(), b = dig(); in[n++] = a; in[n++] = b;
